@@ -83,6 +83,16 @@ def notification(P, R):
         sts = [dict(st) for st in before.get(firstmut.key, set())] if firstmut.key in before else []
         # states are reset by the mutations themselves, so judge the guard at the first mutation
         ok = bool(sts) and all(not (d.get('A') and d.get('B')) for d in sts)
+        # ... and it is KNOWN to differ: on every path to the hook one of "ends with the new list" / "ends with the old
+        # list" was found false (facts kept across the list's own mutation; only a new value of the index resets them)
+
+        def on_event_k(st, t):
+            if t.ev['k'] == 'store' and is_var(t.ev.get('lhs'), dv):
+                return ()
+            return st
+        bk, _, _, _ = ls.forward((), on_event_k, on_edge)
+        stk = [dict(st) for st in bk.get(s.key, set())]
+        ok = ok and bool(stk) and all((d.get('A') is False) or (d.get('B') is False) for d in stk)
         R.ob('C15.GRD.1', ok, s, 'the list hook runs only when the new list differs from the current one', key='predicate:list')
     # the items are compared exactly, like plain strings: an edit that changes only the letter case is a change
     cmpn = 0
@@ -111,6 +121,11 @@ def notification(P, R):
         # every path from the mutation to the exit passes through a block that tests the hook
         cut = ls.reach([first.bid], cut_blocks=list(tests))
         R.ob('C15.MPT.1', ls.exit not in cut or first.bid in tests, first, 'after the list is changed every path reaches the hook test', key='reaches:list')
+    # the hook is told about the FINAL list: nothing changes the list behind the hook call
+    for s in [t for t in hs if t.fn is ls]:
+        after = ls.reach([e.dst for e in ls.out[s.bid]])
+        late = [m for m in muts if (m.bid in after and m.bid != s.bid) or (m.bid == s.bid and m.idx > s.idx)]
+        R.ob('C15.MPT.1', not late, s, 'the list hook runs after the last change to the list%s' % ((' (changed again at %s)' % late[0].loc) if late else ''), key='list-hook-last')
     # ---- strings
     sv = P.need_fn('conf_parse_string_value')
     for s in [t for t in hs if t.fn is sv]:
@@ -291,6 +306,16 @@ def merge_details(P, R, rule='C15.MPT.6'):
                 seen.add(fl[0][-1])
         n += 1
         R.ob(rule, seen >= {'hostname', 'service'}, rv, 'the host/service change test compares both texts (compared: %s)' % sorted(seen), key='pair-both')
+        # ... the EFFECTIVE texts: what is compared is what the node ends up with - no store to the node's host or
+        # service (the fall-back to the registered default) happens behind the comparison
+        after = set()
+        for b, fl in cmps:
+            after |= rv.reach([e.dst for e in rv.out[b]])
+        late = [t for t in rv.stores() if t.ev['k'] == 'store' and (t.ev.get('lhs') or {}).get('k') == 'mem' and t.ev['lhs'].get('field') in ('hostname', 'service')
+                and t.bid in after and not any(t.bid == b for b, _ in cmps) and const_of(t.ev.get('rhs')) != 0
+                and not (is_var(t.ev['lhs'].get('base')) and t.ev['lhs']['base']['name'].startswith('source'))]
+        n += 1
+        R.ob(rule, not late, late[0] if late else rv, 'the host/service texts are final (defaults applied) before they are compared with the saved originals', key='pair-final')
     # alias
     sv = P.need_fn('conf_parse_string_value')
     plain = None
@@ -319,6 +344,25 @@ def merge_details(P, R, rule='C15.MPT.6'):
         n += 1
         R.ob(rule, bool(at_exit) and all(fresh for arm, fresh in at_exit if arm), al[0], 'on the plain-text arm the remembered text is re-pointed at the node\'s current text on every path to the return', key='alias-refresh')
     R.floor(rule, 5, 'flag raises, parent link, pair comparisons, alias refresh')
+
+def zero_defaults(P, R, rule='C15.TAB.2'):
+    """Nodes made by the parser are zero-filled and never given a subtype (only registration assigns one): the
+    enumerator that means "plain text" must therefore be 0, or a setting nobody registered is parsed as a boolean /
+    number when a later file changes it.  Checked from both sides: the parse phase stores no subtype, and the plain
+    enumerator's value is 0; the subtype name table has one entry per enumerator."""
+    enum = P.enums.get('conf_node_string_subtype', [])
+    plain = [c['v'] for c in enum if c['name'] == 'CONF_STRING_PLAIN']
+    gc = P.need_fn('conf_parse_get_child')
+    pe = P.need_fn('conf_parse_entry')
+    sets = [s for f in (gc, pe) for s in f.stores() if s.ev['k'] == 'store' and is_field(s.ev.get('lhs'), 'subtype')]
+    R.ob(rule, bool(plain) and (plain[0] == 0 or bool(sets)), gc, 'parser-made string nodes are plain text: they are zero-filled, no parse function stores a subtype, and CONF_STRING_PLAIN is %s' % (plain[0] if plain else '?'),
+         key='plain-is-zero')
+    names = None
+    for unit, g in P.globals.get('conf_string_subtype_names', []):
+        if isinstance(g.get('init'), dict):
+            names = [it.get('v') for it in g['init'].get('items', []) if isinstance(it, dict) and it.get('k') == 'str']
+    if names is not None:
+        R.ob(rule, len(names) >= len(enum), gc, 'the subtype name table has a name for every subtype (%d names, %d subtypes)' % (len(names), len(enum)), key='subtype-names', nontrivial=False)
 
 def capacities(P, R, rule='C15.BND.1'):
     """A vector's recorded capacity is what was allocated: wherever a `vec` member is given freshly allocated storage
@@ -607,6 +651,7 @@ def run(P, R, tier):
     notification(P, R)
     merge_details(P, R)
     capacities(P, R)
+    zero_defaults(P, R)
     rules.vector_walks(P, R, 'C15.BND.2', units=('src/config.c', 'src/common.c'))
     R.floor('C15.BND.2', 3, 'vector walks in the configuration code')
     exhaustive(P, R)
@@ -619,4 +664,6 @@ def run(P, R, tier):
     c19.link_remove(P, R, 'C15.LINK.1')
     # the parser and the merge keep nothing from one load (or one entry, or one nested call) to the next
     rules.no_static_locals(P, R, 'C15.WMC.9', P.unit_fns(P.need_fn('conf_read').unit), 'configuration code')
+    # settings keep copies of the texts they are given, except the documented hand-overs
+    rules.param_string_escapes(P, R, 'C15.OWN.9', ('src/config.c', 'src/common.c'))
     return EXPLANATION, ASSUMPTIONS
